@@ -267,8 +267,60 @@ def _guard(fn):
     return wrapped
 
 
+# ---- very many classes: "any labels" includes class indices beyond every narrow integer type ---------------
+@st.composite
+def many_class_cases(draw):
+    K = draw(st.sampled_from([127, 128, 129, 255, 256, 257, 32767, 32768, 32769, 40000, 65535, 65536, 65537, 70000]))
+    n = draw(st.integers(1, 3))
+    return {"K": K, "n": n, "base": draw(big_value()), "spread": draw(st.sampled_from([0.0, 1.0, 30.0, 800.0, 2e4])),
+            "pat": [draw(st.integers(-4, 4)) / 4.0 for _ in range(7)],
+            "labels": [draw(st.sampled_from([K - 1, K - 2, K // 2, 0, min(K - 1, 128), min(K - 1, 256), min(K - 1, 32768), min(K - 1, 65536)]))
+                       for _ in range(n)],
+            "label_dtype": draw(st.sampled_from(["int64", "int64", "int32"])), "dtype": draw(st.sampled_from(["float32", "float64"])),
+            "op": draw(st.sampled_from(["cross_entropy", "cross_entropy_module", "nll_of_log_softmax"])),
+            "reduction": draw(st.sampled_from(["none", "sum", "mean"])), "g": draw(st.integers(-8, 8)) / 4.0}
+
+
+def check_many_classes(c, rec):
+    dt = np.dtype(c["dtype"])
+    K, n = c["K"], c["n"]
+    j = np.arange(K)
+    row = np.clip(c["base"] + c["spread"] * np.array(c["pat"])[(j * j + 3 * j) % 7], -1e4, 1e4)
+    x = np.stack([np.roll(row, 3 * i) for i in range(n)]).astype(np.float32).astype(dt)
+    x64 = x.astype(np.float64)
+    labels = np.array(c["labels"])
+    rec.nontrivial(K > 32767)
+    rec.tag(f"K={K}", c["op"])
+    lsm = special.log_softmax(x64, axis=1)
+    sm = np.exp(lsm)
+    per = -lsm[np.arange(n), labels]
+    onehot = np.zeros((n, K)); onehot[np.arange(n), labels] = 1
+    t = Tensor(x.copy(), requires_grad=True)
+    lab = Tensor(labels.astype(c["label_dtype"]))
+    ctx = f"classes={K} labels={c['labels']} label dtype={c['label_dtype']} op={c['op']} reduction={c['reduction']} dtype={dt}"
+    red = "none"
+    if c["op"] == "cross_entropy":
+        out = F.cross_entropy(t, lab)
+    elif c["op"] == "cross_entropy_module":
+        red = c["reduction"]
+        out = nn.CrossEntropyLoss(reduction=red)(t, lab)
+    else:
+        out = F.nll_loss(F.log_softmax(t, 1), lab)
+    want = per if red == "none" else (np.asarray(per.sum()) if red == "sum" else np.asarray(per.mean()))
+    scale = max(1.0, float(np.abs(x64).max()))
+    _check_close(f"{c['op']} forward", np.asarray(out.data).reshape(np.shape(want)), want, scale * (n if red == "sum" else 1), ctx)
+    gv = np.full(out.shape, c["g"], dtype=dt)
+    try:
+        out.backward(Tensor(gv))
+    except Exception as e:  # noqa: BLE001
+        raise Violation("backward_raised", f"{c['op']}: backward raised {type(e).__name__}: {e}; {ctx}")
+    wgrad = c["g"] * (sm - onehot) / (n if red == "mean" else 1)
+    _check_close(f"{c['op']} gradient", t.grad.data, wgrad, max(1.0, abs(c["g"])) * scale, ctx)
+
+
 def subchecks():
     subs = []
+    subs.append(SubCheck("many_classes", _guard(check_many_classes), many_class_cases, quick=60, thorough=1200, shards_quick=4, shards_thorough=8))
     for op in ("sigmoid", "tanh", "selu", "bce_logits"):
         subs.append(SubCheck(op, _guard(check_elementwise), (lambda op=op: elementwise_cases(op)),
                              quick=1500, thorough=20000, shards_quick=2, shards_thorough=4))
